@@ -166,6 +166,12 @@ class Gen:
             second = {"t": "vars", "sel": rootsel, "defs": all_defs[cut:], "color": None}
             all_defs = all_defs[:cut]
         root = {"t": "vars", "sel": rootsel, "defs": all_defs, "color": None}
+        early = None
+        if all_defs and rnd.random() < 0.25:
+            # an EARLIER top-level block that defines some of the same properties with other values: the later definition is the
+            # one in effect (and the one to re-tune)
+            picks = rnd.sample(all_defs, min(len(all_defs), rnd.choice([1, 2])))
+            early = {"t": "vars", "sel": rnd.choice([":root", "html"]), "defs": [(k_, ("lit", rnd.choice(["#fdfdfd", "#030303", "#7f8c8d"]))) for k_, _v in picks], "color": None}
         if rnd.random() < max(0.2, self.f_known * 0.5):      # a literal color directly in the :root/html rule (next to its custom properties)
             bg = (255, 255, 255)
             root["color"] = lit(self.colour_for(rnd.choice(["fix", "ok"]), bg), rnd, ["hex6", "rgbfn"])
@@ -173,10 +179,15 @@ class Gen:
         nodes = body[:pos] + [root] + body[pos:]
         if second is not None:
             nodes.insert(rnd.randrange(len(nodes) + 1), second)
+        if early is not None:
+            nodes.insert(rnd.randrange(nodes.index(root) + 1), early)
         if rnd.random() < 0.15:
             # a :root block nested in an at-rule (its properties are not global; the tool must not confuse it with the top-level one)
-            nodes.insert(rnd.randrange(len(nodes) + 1), {"t": "at", "kw": "media", "prelude": "print", "kids": [
-                {"t": "vars", "sel": rootsel, "defs": [("--printonly", ("lit", "#000000"))], "color": None}]})
+            self.n += 1
+            nodes.insert(rnd.randrange(len(nodes) + 1), {"t": "at", "kw": rnd.choice(["media", "supports"]), "prelude": rnd.choice(["print", "(display: grid)"]), "kids": [
+                {"t": "vars", "sel": rootsel, "defs": [("--printonly", ("lit", rnd.choice(["#000000", "#8a8f98"])))], "color": None},
+                # ... and a rule in the same block that uses it: not a document-wide property, so this colour does not resolve
+                {"t": "rule", "sel": ".po%d" % self.n, "text": ("var", "--printonly"), "bg": None, "extras": [], "imp": False, "dup": False, "comment": False}]})
         if self.carry:
             nodes = self.sprinkle(nodes)
         return nodes
@@ -270,7 +281,10 @@ class Gen:
                                       "background: url(\"a;b{}.png\") no-repeat", "content: \"/* not a comment */ }\"",
                                       "-webkit-transition: color .2s ease", "width: calc(100% - 2 * var(--gap, 4px))",
                                       "outline-color: #abcdef", "padding: 0 0 0 1e1px", "font-family: \"caf\\e9\", serif",
-                                      "transform: translate( -50% , -50% )", "unicode-range: U+0025-00FF"]))
+                                      "transform: translate( -50% , -50% )", "unicode-range: U+0025-00FF",
+                                      # an at-rule inside the style rule's block (CSS Syntax 3 allows at-rules in declaration lists;
+                                      # nested STYLE rules - `&:hover { }` - are beyond the tokenizer both sides use: observation F7)
+                                      "@media (min-width: 40em) { margin: 0 2em; outline-color: #123456 }", "@supports (display: grid) { display: grid }"]))
         return {"t": "rule", "sel": sel, "text": textexpr, "bg": bgexpr, "extras": extras,
                 "imp": rnd.random() < 0.15, "dup": rnd.random() < 0.15, "comment": rnd.random() < 0.3,
                 "dupbg": bgexpr is not None and rnd.random() < 0.2,
@@ -365,8 +379,8 @@ def render(nodes, rnd, indent=""):
                 decls.insert(rnd.randrange(len(decls) + 1), "/* note: keep; this } comment */")
             body = []
             for d in decls:
-                body.append(d if d.startswith("/*") else d + ";")
-            if body and not body[-1].startswith("/*") and rnd.random() < 0.4:
+                body.append(d if (d.startswith("/*") or d.rstrip().endswith("}")) else d + ";")
+            if body and not body[-1].startswith("/*") and body[-1].endswith(";") and rnd.random() < 0.4:
                 body[-1] = body[-1][:-1]
             sep = rnd.choice([" ", "\n" + indent + "  "])
             out.append(indent + n["sel"] + rnd.choice([" {", "{", " {\n"]) + sep.join(body) + rnd.choice(["}", " }", "\n" + indent + "}"]))
